@@ -1,5 +1,55 @@
-import Rtcm.Model.Names
-import Rtcm.Model.Socket
-import Rtcm.Gen.Tables
+import Rtcm.Lemmas.Chunk
+/-
+  C12 — chunked transfer decoding is independent of segmentation.
+  `dec` is the per-chunk transform (identity, gzip, zlib or raw deflate — the theorem holds for
+  every function, the real zlib is exercised by the correspondence run).
+  PARTIAL: the optional terminating zero chunk `0 CRLF CRLF` after the body is covered by the
+  correspondence run (exhaustive partitions of small bodies with and without it), not by the theorem.
+-/
 namespace Rtcm
+
+/-- **Main theorem.**  For every well-formed chunked body (any number and size of chunks, any
+    size-line spelling that Python's `int(·, 16)` reads as the data length) and every way of cutting
+    the encoded stream into receive results — inside a chunk-size line, inside chunk data, between
+    the data and its CRLF, or inside that CRLF — the bytes accumulated in the buffer are exactly the
+    concatenation of the decoded chunk bodies, and no partial chunk is left over. -/
+theorem C12_segmentation_independent (dec : Bytes → Bytes) (cs : List (Bytes × Bytes))
+    (hok : ∀ hc ∈ cs, ChunkOK hc) (segs : List Bytes) (hcat : segs.flatten = body cs) :
+    segs.foldl (feedSeg dec) ([], []) = ([], decAll dec cs) :=
+  feed_invariant dec cs hok segs [] cs [] [] rfl rfl (by simpa using hcat) (Or.inl rfl)
+
+/-- in particular the result does not depend on the segmentation at all -/
+theorem C12_any_two_segmentations (dec : Bytes → Bytes) (cs : List (Bytes × Bytes))
+    (hok : ∀ hc ∈ cs, ChunkOK hc) (segs₁ segs₂ : List Bytes)
+    (h₁ : segs₁.flatten = body cs) (h₂ : segs₂.flatten = body cs) :
+    segs₁.foldl (feedSeg dec) ([], []) = segs₂.foldl (feedSeg dec) ([], []) := by
+  rw [C12_segmentation_independent dec cs hok segs₁ h₁, C12_segmentation_independent dec cs hok segs₂ h₂]
+
+/-- one receive of the socket wrapper in chunked mode is one `feedSeg` step -/
+theorem C12_recv_is_feed (dec : Bytes → Bytes) (s : Sock) (d : Bytes) (rest : List Recv)
+    (hc : s.chunked = true) (hs : s.sched = .data d :: rest) (hd : d ≠ []) (hb : d.length ≤ s.bufsize) :
+    (Sock.recv dec s).1 = true
+    ∧ ((Sock.recv dec s).2.partial_, (Sock.recv dec s).2.buffer) = feedSeg dec (s.partial_, s.buffer) d
+    ∧ (Sock.recv dec s).2.sched = rest := by
+  have hl : d.length ≠ 0 := fun h => hd (List.eq_nil_of_length_eq_zero h)
+  simp [Sock.recv, hs, peerRecv, hb, hl, hc, feedSeg]
+
+/-- a cut after a prefix of the body leaves exactly the undecoded tail as `partial`, and later
+    data completes it: decoding a prefix then the rest equals decoding everything at once -/
+theorem C12_prefix_then_rest (dec : Bytes → Bytes) (cs : List (Bytes × Bytes))
+    (hok : ∀ hc ∈ cs, ChunkOK hc) (a b : Bytes) (h : a ++ b = body cs) :
+    feedSeg dec (feedSeg dec ([], []) a) b = feedSeg dec ([], []) (a ++ b) := by
+  have h2 := C12_segmentation_independent dec cs hok [a, b] (by simpa using h)
+  have h1 := C12_segmentation_independent dec cs hok [a ++ b] (by simpa using h)
+  simp only [List.foldl_cons, List.foldl_nil] at h1 h2
+  rw [h1, h2]
+
+/-! non-vacuity: size lines as Python reads them (upper / lower case, leading zeros) -/
+example : SizeLine [53] 5 := ⟨by decide, by decide⟩                       -- "5"
+example : SizeLine [65] 10 := ⟨by decide, by decide⟩                      -- "A"
+example : SizeLine [97] 10 := ⟨by decide, by decide⟩                      -- "a"
+example : SizeLine [49, 102] 31 := ⟨by decide, by decide⟩                 -- "1f"
+example : SizeLine [48, 48, 49, 48] 16 := ⟨by decide, by decide⟩          -- "0010"
+example : ChunkOK ([50], [13, 10]) := ⟨⟨by decide, by decide⟩, by decide⟩ -- data that is itself CR LF
+
 end Rtcm
